@@ -147,6 +147,9 @@ Eval(P, e, env, logs) ==
             ELSE EvalBlock(P, IF c.v.v THEN e.t ELSE e.f, c.env, c.logs)
       [] e.k = "block" -> EvalBlock(P, e.b, env, logs)
       [] e.k = "tuple" \/ e.k = "struct" \/ e.k = "array" -> EvalSeq(P, e.es, 1, <<>>, env, logs)
+      [] e.k = "arep" ->       \* [e; n] : e is evaluated once
+            LET r == Eval(P, e.e, env, logs) IN
+            IF r.sig # "ok" THEN r ELSE OkR(AggV([j \in 1..e.n |-> r.v]), r.env, r.logs)
       [] e.k = "enum" ->
             LET r == Eval(P, e.e, env, logs) IN
             IF r.sig # "ok" THEN r ELSE OkR(EnumV(e.v, r.v), r.env, r.logs)
